@@ -149,6 +149,31 @@ pub fn check_decode_all(e: &Entry, bytes: &[u8], limit: u32, family: &str, stats
 		stats.nontrivial(&(e.name, bytes));
 	}
 	stats.sample(|| json!({"relation": "decode_all <=> decode && empty", "type": e.name, "bytes": hex(bytes), "depth_limit": limit, "plain_ok": plain.0.is_ok(), "leftover": leftover}));
+	// a limit that covers the value's own nesting is no restriction: then the depth-limited consume-everything
+	// entry point must agree with *ordinary* decoding, not merely with its depth-limited twin
+	if let Ok(v) = &plain.0 {
+		let d = depth_hi(&e.ty, v);
+		if plain.1 == bytes.len() && limit >= d {
+			stats.class("decode_all_with_depth_limit at a sufficient limit");
+			match &all_lim {
+				Ok(w) if eqv(&normalize(&e.ty, w), &normalize(&e.ty, v)) => {},
+				Ok(_) =>
+					return Err(Violation::new(
+						format!("C14/decode_all_with_depth_limit/value/{}", e.ty.family()),
+						format!("type {}: decode_all_with_depth_limit({limit}) returns a different value than decode\nbytes {}", e.name, hex(bytes)),
+					)),
+				Err(err) =>
+					return Err(Violation::new(
+						format!("C14/decode_all_with_depth_limit/sufficient-limit/{}", e.ty.family()),
+						format!(
+							"type {}: decode consumes the whole input and the value nests {d} level(s), but decode_all_with_depth_limit({limit}) fails: {err}\nbytes {}",
+							e.name,
+							hex(bytes)
+						),
+					)),
+			}
+		}
+	}
 	for (what, base, got) in [("decode_all", &plain, &all), ("decode_all_with_depth_limit", &lim, &all_lim)] {
 		let expect_ok = base.0.is_ok() && base.1 == bytes.len();
 		match (expect_ok, got) {
